@@ -103,6 +103,13 @@ class Wn(NativeModel):
     def valves(self):
         return GenericIter([])
 
+    # the arbitrary link need not be a pipe (or a pump): an iteration over one link class does not reach it
+    def pipes(self):
+        return GenericIter([])
+
+    def pumps(self):
+        return GenericIter([])
+
     def tanks(self):
         return GenericIter([])
 
@@ -284,7 +291,8 @@ def _models(cfg):
             ok = p.branch(p.fresh("solver_converged", "bool").t)
             g.solved = ok
             g.step_failed = not ok
-            return (1 if ok else 0, "mesg", 5)
+            # _solver_helper's contract: (status, message, iteration count) - the count is None for the scipy solvers (contracts/c16_solver.py)
+            return (1 if ok else 0, "mesg", None if cfg.get("scipy_solver") else 5)
         reg(core._solver_helper, solver_helper, verified_by="wntr.sim.core:_solver_helper / NewtonSolver.solve (contracts/c16_solver.py)")
 
         def store(interp, args, kw):
@@ -386,8 +394,8 @@ def _variant(interp, env):
     return (a, b)
 
 
-def _case(start, report, conv_err, backup, hyd_mode, iso_flags=False):
-    cfg = dict(g=[None], sim=[None], results=[None])
+def _case(start, report, conv_err, backup, hyd_mode, iso_flags=False, scipy_solver=False):
+    cfg = dict(g=[None], sim=[None], results=[None], scipy_solver=scipy_solver)
 
     def build(cx):
         g = G(cx.path)
@@ -426,7 +434,8 @@ def _case(start, report, conv_err, backup, hyd_mode, iso_flags=False):
                      _prev_isolated_junctions=OrderedSet(), _prev_isolated_links=OrderedSet())    # as __init__ leaves them
         cfg["sim"][0] = sim
         cx.allow_raise(RuntimeError, conv_err)
-        cx.target(WNTRSimulator.run_sim, sim, NewtonSolver, ("backup" if backup else None), None, None, conv_err)
+        import scipy.optimize
+        cx.target(WNTRSimulator.run_sim, sim, (scipy.optimize.fsolve if scipy_solver else NewtonSolver), ("backup" if backup else None), None, None, conv_err)
         cx.g, cx.res = g, res
 
         def post(out):
@@ -438,7 +447,8 @@ def _case(start, report, conv_err, backup, hyd_mode, iso_flags=False):
                       (res.error_code is wntr.sim.results.ResultsStatus.error and g.warned) if g.failed else res.error_code is None)]
             return posts
         cx.ensure(post)
-    return Case("start=%s,report=%s,convergence_error=%s,backup=%s,hyd=%s%s" % (start, report, conv_err, backup, hyd_mode, ",stored_isolation_flags=any" if iso_flags else ""),
+    return Case("start=%s,report=%s,convergence_error=%s,backup=%s,hyd=%s%s%s" % (start, report, conv_err, backup, hyd_mode, ",stored_isolation_flags=any" if iso_flags else "",
+                                                                                  ",solver=scipy (no iteration count)" if scipy_solver else ""),
                 build, crosscheck=False), cfg
 
 
@@ -460,6 +470,12 @@ def _mk():
                             loop_specs={(QN, "test:True"): _mk_loop(cfg)},
                             trusted=["every callee of run_sim is replaced by the contract proved (or assumed) for it elsewhere: see verified_by of the models",
                                      "diagnostics disabled (_Diagnostics.run is a no-op)"]))
+    # a scipy solver instead of NewtonSolver: _solver_helper reports no iteration count
+    for (start, report, conv_err, backup) in (("fresh", "ALL", False, False), ("resume", "grid", True, True)):
+        case, cfg = _case(start, report, conv_err, backup, 3600, False, scipy_solver=True)
+        contracts.append(Contract(QN, P, [case], models=_models(cfg), loop_specs={(QN, "test:True"): _mk_loop(cfg)},
+                                  trusted=["every callee of run_sim is replaced by the contract proved (or assumed) for it elsewhere: see verified_by of the models",
+                                           "diagnostics disabled (_Diagnostics.run is a no-op)"]))
     return contracts
 
 
